@@ -85,6 +85,27 @@ Theorem C16_document_end : forall p ev p',
 Proof. exact document_end_tags. Qed.
 Print Assumptions C16_document_end.
 
+(* (c)+(b) in the words of [table_of]: from the end of one document to the "---" of the next *)
+Theorem C16_next_document : forall p T ev p1 run sp rest,
+  agree (p_tags p) T -> document_end p = Parser.Ok (ev, p1) ->
+  stream p1 = run ++ (sp, TDocumentStart) :: rest -> run_ok run ->
+  match table_of (p_keep_tags p) T (dirs_of run) with
+  | Some T' =>
+      exists p2, explicit_document_start p1 = Parser.Ok ((EDocumentStart true, sp), p2)
+                 /\ agree (p_tags p2) T' /\ stream p2 = rest /\ p_keep_tags p2 = p_keep_tags p
+  | None =>
+      exists site j, (site = 21 \/ site = 2)%N /\ explicit_document_start p1 = Parser.Err (PErr site (mark_of run j))
+  end.
+Proof. exact next_document_spec. Qed.
+Print Assumptions C16_next_document.
+
+(* between the start and the end of a document nothing touches the table: every other state of the parser,
+   whatever the tokens, leaves it as it is *)
+Theorem C16_table_stable : forall p ev p',
+  state_machine p = Parser.Ok (ev, p') -> table_state (p_state p) = false -> p_tags p' = p_tags p.
+Proof. exact state_machine_tags. Qed.
+Print Assumptions C16_table_stable.
+
 (* ---------------------------------------------------------------------------------------------- *)
 (* (d) Percent-decoding.  For EVERY byte sequence the RFC 3629 decoder of the specification accepts   *)
 (*     (1 to 4 bytes, shortest form, no surrogates, at most U+10FFFF), spelled as escapes with hex     *)
